@@ -658,15 +658,33 @@ func runProbe(p probeT) (o probeOutcome, err error) {
 // sigNested names a nested read lock by the method that holds the read lock while a same-receiver call takes it again.
 func sigNested(method string) string { return "C32-nested-read-lock-" + method }
 
-// nestedShape: the goroutine waits in RLock inside a method that was called from another method of the same receiver
-// type - the shape of a read lock acquired twice. It returns the outer method.
+// nestedShape: the goroutine waits in RLock inside a method of a lock-bearing type that was called from another method
+// of the same type - the shape of a read lock acquired twice (the dump cannot show that the outer method holds the
+// lock, so this is a name for the stall, not its proof: the proof is the stall with lock waiters). It returns the outer
+// method.
 func nestedShape(wait string, frames []string) (outer string, ok bool) {
 	if wait == "RWMutex.RLock" && len(frames) >= 2 {
-		if t0, t1 := recvType(frames[0]), recvType(frames[1]); t0 != "" && t0 == t1 {
+		if t0, t1 := recvType(frames[0]), recvType(frames[1]); t0 != "" && t0 == t1 && lockBearing()[t0] {
 			return frames[1], true
 		}
 	}
 	return "", false
+}
+
+var lockBearingOnce struct {
+	sync.Once
+	m map[string]bool
+}
+
+// lockBearing: names of the types that embed a lock (only their methods can hold "their own" read lock).
+func lockBearing() map[string]bool {
+	lockBearingOnce.Do(func() {
+		lockBearingOnce.m = map[string]bool{}
+		for _, lt := range discoverLockTypes() {
+			lockBearingOnce.m[lt.Name] = true
+		}
+	})
+	return lockBearingOnce.m
 }
 
 func recvType(f string) string {
